@@ -86,17 +86,6 @@ def gen_case(rng, kills, nested, nframes=None):
                 res = ['return', rng.choice([None, 0, 7, -3, g])]
             else:
                 res = ['yield', rng.choice(waits)]
-            if res[0] == 'return':
-                # the known finding K9 (kill itself, then return) is not
-                # generated on purpose: drop self-kills that stay in force
-                pend = False
-                for a in acts:
-                    if a == ['kill', g]:
-                        pend = True
-                    elif a == ['start', g]:
-                        pend = False
-                if pend:
-                    acts = [a for a in acts if a != ['kill', g]]
             steps.append([acts, res])
         scripts.append([g, steps])
     frame = 0
